@@ -1146,8 +1146,8 @@ theorem pretty_chain_status (cls : SiteClass) (hc : cls ≠ .selfRecursiveOnData
     simp; omega
 
 /-- the prettifier of /repo caps the nesting of `[ … ]` (decided on the constant regenerated from
-_pretty.rs on every run: removing `MAX_BNODE_NESTING` or its test in `write_bnode` fails this
-obligation) -/
+_pretty.rs on every run: removing `MAX_BNODE_NESTING` or every use of it fails this obligation;
+that the use does bound the nesting under every configuration is observed by the chain sites) -/
 theorem pretty_cap_present : prettyBnodeNestingCap.isSome = true := by decide
 
 /-- for today's /repo, unconditionally: a chain of blank nodes of ANY length costs the prettifier at
